@@ -93,8 +93,20 @@ class Eval:
                 self.bind_pat(q, term, env, default_param, path + (("tuple", str(i)),))
             return
         if k == "Or":
+            alts = []
             for q in p["pats"]:
-                self.bind_pat(q, term, env, default_param, path)
+                ea = {}
+                self.bind_pat(q, term, ea, default_param, path)
+                alts.append((hq.pat_key(q), ea))
+            ids = set()
+            for _, ea in alts:
+                ids |= set(ea)
+            for i in ids:
+                vals = [(k_, ea[i]) for k_, ea in alts if i in ea]
+                if all(v == vals[0][1] for _, v in vals):
+                    env[i] = vals[0][1]
+                else:
+                    env[i] = ("orbind", tuple(vals))
             return
         if k == "Slice":
             for q in p.get("before", []) + p.get("after", []):
@@ -170,6 +182,21 @@ class Eval:
                 self.expr(e, env, depth)
                 return
             sc = self.expr(e["scrut"], env, depth)
+            sn = strip(e["scrut"])
+            if sn.get("k") == "MethodCall" and sn["method"] == "entry" and self.root_local(sn["recv"]) is not None:
+                root = self.root_local(sn["recv"])
+                arms = []
+                for a in e["arms"]:
+                    ea = dict(env)
+                    self.bind_pat(a["pat"], ("entry",), ea)
+                    ab = a["body"]
+                    if ab.get("k") == "Block" and "mac_src" not in ab:
+                        vals = tuple(self.expr(hq.stmt_expr(st), ea, depth) for st in hq.stmts_of(ab) if hq.stmt_expr(st) is not None)
+                    else:
+                        vals = (self.expr(ab, ea, depth),)
+                    arms.append((hq.pat_key(a["pat"]), vals))
+                env[root] = ("upd", env.get(root, ("unknown", "unbound")), "entry", (self.expr(sn["args"][0], env, depth), ("arms", tuple(arms))))
+                return
             envs = []
             for a in e["arms"]:
                 ea = dict(env)
@@ -220,7 +247,7 @@ class Eval:
                 r = self.root_local(n["l"])
                 if r is not None:
                     out.append(r)
-            elif k == "MethodCall" and n["method"] in MUTATORS and "&mut" in (n["recv"].get("ty_adj", "") + n["recv"].get("ty", "")):
+            elif k == "MethodCall" and (n["method"] in MUTATORS or n["method"] == "entry") and "&mut" in (n["recv"].get("ty_adj", "") + n["recv"].get("ty", "")):
                 r = self.root_local(n["recv"])
                 if r is not None:
                     out.append(r)
